@@ -70,6 +70,40 @@ Section Graph.
 End Graph.
 
 
+
+(* ------------------------------------------------------------------ which token kinds a graph can see *)
+Section Kinds.
+  Variable g : grammar.
+  (** no typed parser, node kind or first-token hint type of the graph mentions kind [k] *)
+  Definition kind_invisible_b (k : N) : bool :=
+    negb (k =? k_bracketed g)
+    && forallb (fun i =>
+                  match n_node i with GTyped tpl _ => negb (k =? tpl) | GNodeM k2 _ => negb (k =? k2) | _ => true end
+                  && match n_simple i with Some (_, tys, _) => negb (memN k tys) | None => true end) (infos g).
+  (** no first-token hint of the graph mentions the strings of [t] *)
+  Definition raws_invisible_b (t : ptok) : bool :=
+    forallb (fun i => match n_simple i with
+                      | Some (raws, _, _) =>
+                          negb (memN (p_ftr t) raws) && match p_fnw t with Some r => negb (memN r raws) | None => true end
+                      | None => true
+                      end) (infos g).
+
+  Lemma gap_ok_of_kind t :
+    kind_invisible_b (p_kind t) = true -> p_types t = [p_kind t] -> raws_invisible_b t = true ->
+    is_some (p_fnw t) = true -> gap_ok_b g t = true.
+  Proof.
+    unfold kind_invisible_b, raws_invisible_b, gap_ok_b. intros Hk Hty Hr Hf.
+    apply andb_true_iff in Hk as [Hb Hk]. rewrite Hf, Hb. cbn [andb].
+    rewrite forallb_forall in *. intros i Hi. specialize (Hk i Hi). specialize (Hr i Hi).
+    apply andb_true_iff in Hk as [Hk1 Hk2].
+    unfold hint_free_for, kind_free_for. rewrite Hty.
+    destruct (n_simple i) as [[[raws tys] al]|].
+    - apply andb_true_iff in Hr as [Hr1 Hr2]. rewrite Hr1, Hr2. cbn [intersects existsb].
+      apply negb_true_iff in Hk2. rewrite Hk2. cbn. destruct (n_node i); try reflexivity; exact Hk1.
+    - destruct (n_node i); try reflexivity; exact Hk1.
+  Qed.
+End Kinds.
+
 (** anchored at [idx]: a match starts where it was asked to *)
 Definition anchored (idx : N) (m : mr) : Prop := has_match m = true -> mr_start m = idx.
 
